@@ -8,6 +8,7 @@ import AnyTLS.Lemmas.Frame
 import AnyTLS.Props.C02
 import AnyTLS.Props.C03
 import AnyTLS.Props.C11
+import AnyTLS.Lemmas.Relay
 
 namespace AnyTLS.C01
 open AnyTLS AnyTLS.Gen
@@ -350,5 +351,45 @@ theorem data_finds_new_stream (cs cs' : CS) (t : Nat) (hpc : (cs.task t).pc = .o
     (cs'.task t).submitted = (cs.task t).submitted ++ [synBytes cs.s.nextSid] :=
   let h := AnyTLS.C11.registered_before_syn cs cs' t hpc hm
   ⟨h.1, h.2.1, h.2.2.2.1⟩
+
+/-! ### the relay loops around a stream (M14): server ↔ target, SOCKS5 / HTTP front-end ↔ application
+
+`Gen.relaySites` is regenerated from `handler.rs`, `socks5.rs` and `http_proxy.rs` on every run: for each
+`loop { n = source.read(&mut buf); sink.<hand-over>(<slice>) }` the hand-over call and the slice it is given.
+The first theorem is the proof obligation the code has to meet (it stops checking when a loop switches to
+a single `write` or forwards another part of the buffer); the other two say what the obligation buys, for
+every sequence of reads, every prior buffer content and every behaviour of the sink (any per-call capacities,
+failure at any point). -/
+
+theorem relay_sites_sound : ∀ s ∈ Gen.relaySites, Relay.sound s = true := by decide
+
+theorem relay_sites_all_found : Gen.relaySites.length = 6 := by decide
+
+/-- at every moment the sink of every relay loop of the code has received a prefix of what its source produced -/
+theorem every_relay_loop_prefix (s : Gen.RelaySite) (hs : s ∈ Gen.relaySites) (reads : List Bytes) (buf : Bytes)
+    (caps : List Nat) : (Relay.run s.write s.slice buf reads caps).delivered <+: flatten reads := by
+  have h := relay_sites_sound s hs
+  simp only [Relay.sound, Bool.and_eq_true, bne_iff_ne, ne_eq, beq_iff_eq] at h
+  rw [h.2]
+  exact Relay.run_prefix s.write h.1 reads buf caps
+
+/-- ... and when the loop ends because its source ended, the sink has received all of it, in order, once -/
+theorem every_relay_loop_complete (s : Gen.RelaySite) (hs : s ∈ Gen.relaySites) (reads : List Bytes) (buf : Bytes)
+    (caps : List Nat) (hdone : (Relay.run s.write s.slice buf reads caps).sourceDone = true) :
+    (Relay.run s.write s.slice buf reads caps).delivered = flatten reads := by
+  have h := relay_sites_sound s hs
+  simp only [Relay.sound, Bool.and_eq_true, bne_iff_ne, ne_eq, beq_iff_eq] at h
+  rw [h.2] at hdone ⊢
+  exact Relay.run_complete s.write h.1 reads buf caps hdone
+
+/-- the loop does end that way whenever the sink keeps taking at least one byte per call (non-vacuity of `hdone`) -/
+example : (Relay.run .writeAll .prefixN [] [[1, 2, 3], [4, 5]] [2, 9, 1, 1]).sourceDone = true := by decide
+
+/-- the two shapes the obligation excludes do lose or invent bytes (so the obligation is not idle) -/
+theorem single_write_loses_bytes :
+    (Relay.run .writeOnce .prefixN [] [[1, 2, 3], [4]] [2, 5]).delivered ≠ flatten [[1, 2, 3], [4]] := by decide
+
+theorem whole_buffer_invents_bytes :
+    (Relay.run .writeAll .whole [9, 9, 9] [[1, 2, 3], [4]] [8, 8]).delivered ≠ flatten [[1, 2, 3], [4]] := by decide
 
 end AnyTLS.C01
